@@ -91,7 +91,11 @@ class C14(Property):
             if op == 'group':
                 return show_int_list(periodic.groups.get(c['g'], ()))
             if op == 'mass_fractions':
-                subst = {str(i): type('S', (), {'mass': float(Fraction(*m) if isinstance(m, list) else m)})() for i, m in enumerate(c['masses'])}
+                # the optional `substances` registry is deliberately a superset in another order than the mixture
+                mk = lambda m: type('S', (), {'mass': float(Fraction(*m) if isinstance(m, list) else m)})()
+                subst = {'extra': mk(7)}
+                for i, m in reversed(list(enumerate(c['masses']))):
+                    subst[str(i)] = mk(m)
                 r = mass_fractions({str(i): v for i, v in enumerate(c['coeffs'])}, substances=subst)
                 return repr([r[str(i)] for i in range(len(c['coeffs']))])
         except Exception as e:
@@ -147,6 +151,14 @@ class C14(Property):
         elif op == 'mass_fractions_formulas':
             st = dict(zip(c['formulas'], c['coeffs']))
             r = mass_fractions(st)
+            # same mixture with an explicit registry (superset, different order): must give the same fractions
+            reg = {'H2O': Substance.from_formula('H2O')}
+            for f in reversed(c['formulas']):
+                reg[f] = Substance.from_formula(f)
+            r2 = mass_fractions(st, substances=reg)
+            for f in st:
+                if not close(r2[f], r[f], 1e-12):
+                    return 'mass_fractions(%r, substances=<registry in another order>)[%r] = %r but %r without registry' % (st, f, r2[f], r[f])
             ms = {f: fg.ref_mass(fg.composition(a)) for f, a in zip(c['formulas'], c['asts'])}
             tot = sum(ms[f] * v for f, v in st.items())
             if tot != 0:
